@@ -242,7 +242,7 @@ class C14(PureCheck):
             ev["res"] = fmtlib.enc_res(lambda: f.new_with_atts_removed(*inp["names"]))
         elif op == "newstr":
             f = enc.build_fmtstr(inp["f"])
-            ev["res"] = fmtlib.enc_res(lambda: f.copy_with_new_str(enc.dec_text(inp["t"])))
+            ev["res"] = fmtlib.enc_res(lambda: enc.call(f.copy_with_new_str, enc.dec_text(inp["t"])))
         elif op == "shared":
             f = enc.build_fmtstr(inp["f"])
             try:
